@@ -239,6 +239,14 @@ func (ex *Explorer) query(extra ...*Term) (SatResult, *Model) {
 		return res, nil
 	}
 	m := NewModel()
+	// the concrete choices of the current path are part of every model of this path
+	if ex.model != nil {
+		for k, v := range ex.model.Vars {
+			if strings.HasPrefix(k, "choice:") {
+				m.Vars[k] = v
+			}
+		}
+	}
 	// evaluate argument values of UF inputs under the var assignment: two passes
 	for i, t := range want {
 		if t.Op == OpVar {
